@@ -127,8 +127,8 @@ pub fn case_strategy() -> impl Strategy<Value = Case> {
     (proptest::collection::vec("[a-zA-Z0-9 éß]{1,12}", 0..6), 1usize..3).prop_flat_map(|(strings, n)| {
         let ns = strings.len() as u32;
         let names = ["Sheet1", "Données"];
-        let sheets: Vec<_> = (0..n).map(|i| sheet(names[i].to_string(), ns, 4).boxed()).collect();
-        (Just(strings), sheets, any::<u8>(), any::<bool>(), crate::props::c13::layout_strategy(), 1u8..5).prop_map(|(strings, sheets, junk, codepage, cfb, alt)| Case { sheets, strings, xfs: vec![0, 0, 2, 49], junk, codepage, cfb, alt })
+        let sheets: Vec<_> = (0..n).map(|i| sheet(names[i].to_string(), ns, 5).boxed()).collect();
+        (Just(strings), sheets, any::<u8>(), any::<bool>(), crate::props::c13::layout_strategy(), 1u8..5).prop_map(|(strings, sheets, junk, codepage, cfb, alt)| Case { sheets, strings, xfs: vec![0, 0, 2, 49, 14], junk, codepage, cfb, alt })
     })
 }
 
